@@ -11,7 +11,28 @@ from .util import (call_sites, foreign, exactly_once, or_terms, result_gates, cl
 MSG_DONTWAIT = 0x40
 O_NONBLOCK = 0x800
 F_SETFL = 4
-WAKEFD = "signal_hook::low_level::pipe::WakeFd"
+PIPE_MOD = "signal_hook::low_level::pipe::"
+_OWNER = {}
+
+
+def owner_type(F):
+    """the type that owns the wake descriptor, by role: the one type of low_level::pipe whose Drop impl closes a descriptor (`WakeFd` today)"""
+    k = id(F)
+    if k not in _OWNER:
+        cands = set()
+        for i in F.inst:
+            mm = re.match(r"^<(signal_hook::low_level::pipe::\w+) as core::ops::drop::Drop>::drop$", i.name)
+            if mm and i.local and i.body is not None and call_sites(F, i, foreign("close")):
+                cands.add(mm.group(1))
+        if len(cands) != 1:
+            raise AnchorLost("the type of low_level::pipe whose Drop closes the wake descriptor: found %s" % sorted(cands))
+        _OWNER[k] = (F, cands.pop())
+    return _OWNER[k][1]
+
+
+def method_type(F):
+    """the enum recording how to wake (send / write): the enum-typed field of the owner (or of the private struct it wraps)"""
+    return wakefd_fields(F)[2]
 
 
 def wake_fn(F):
@@ -44,16 +65,25 @@ def wakefd_fields(F):
         for f in a["variants"][0]["fields"]:
             if f["ty"] == "i32":
                 fd.append(_Role((path, f["name"])))
-            elif f["ty"].endswith("WakeMethod"):
-                me.append(_Role((path, f["name"])))
-            elif f["ty"].startswith("signal_hook::low_level::pipe::") and f["ty"] in adts:
+            elif f["ty"].startswith(PIPE_MOD) and f["ty"] in adts and len(adts[f["ty"]]["variants"]) >= 2:
+                me.append(_Role((path, f["name"]))); mty.append(f["ty"])
+            elif f["ty"].startswith(PIPE_MOD) and f["ty"] in adts:
                 visit(f["ty"], depth + 1)
-    if WAKEFD not in adts:
-        raise AnchorLost("type %s" % WAKEFD)
-    visit(WAKEFD)
+    mty = []
+    W = owner_type(F)
+    if W not in adts:
+        raise AnchorLost("type %s" % W)
+    visit(W)
     if len(fd) != 1 or len(me) != 1:
-        raise AnchorLost("WakeFd: one RawFd field and one WakeMethod field expected, found %s / %s" % (fd, me))
-    return fd[0], me[0]
+        raise AnchorLost("wake descriptor owner: one RawFd field and one wake-method (enum) field expected, found %s / %s" % (fd, me))
+    return _Fields((fd[0], me[0], mty[0]))
+
+
+class _Fields(tuple):
+    """(descriptor role, method role, method enum type); unpacks as a pair for the older call sites"""
+
+    def __iter__(self):
+        return iter((self[0], self[1]))
 
 
 def method_of_construction(F, fl, rv, at, mef):
@@ -96,7 +126,7 @@ def owner_builders(F):
             if fn is None or not fn["pub"]:
                 continue
             n = NF(F, i)
-            if adt_constructions(n, WAKEFD):
+            if adt_constructions(n, owner_type(F)):
                 out.append((i, n))
     if not out:
         raise AnchorLost("no public function of low_level::pipe constructs the owning WakeFd")
@@ -237,7 +267,7 @@ def c13b(F):
         clos = [(cb, csi, crv) for (cb, csi, crv) in closure_constructions(m) if crv["def"] in action_defs]
         if not clos:
             raise AnchorLost("the action closure registered by %s" % m0.name)
-        for (bb, si, rv) in adt_constructions(m, WAKEFD):
+        for (bb, si, rv) in adt_constructions(m, owner_type(F)):
             if m.blocks[bb].get("dead"):
                 continue
             meth = method_of_construction(F, fl, rv, (bb, si), mef)
@@ -255,13 +285,13 @@ def c13b(F):
                     e = deep_strip(e)
                     if e[0] == "discr" and any(deep_strip(e[1]) == mm or is_field(deep_strip(e[1]), mef) for mm in meth):
                         # which variant index is Send?
-                        send_vi = _variant_index(F, "signal_hook::low_level::pipe::WakeMethod", "Send")
+                        send_vi = _variant_index(F, method_type(F), "Send")
                         val = int(lab[3:]) if lab.startswith("sw:") else None
                         if val is not None and val == send_vi:
                             drop.add((b2, tgt))
                         elif val is None:
                             # the otherwise edge stands for Send when every other variant has its own edge (`if let Write = method {..}`)
-                            allv = {v_.get("discr", i_) for i_, v_ in enumerate(F.adt("signal_hook::low_level::pipe::WakeMethod")["variants"])}
+                            allv = {v_.get("discr", i_) for i_, v_ in enumerate(F.adt(method_type(F))["variants"])}
                             if allv - {v for v, _ in t2["vals"]} == {send_vi}:
                                 drop.add((b2, tgt))
             for (cb, csi, crv) in clos:
@@ -448,7 +478,8 @@ def rule_c(ctx):
     rid = "C13.c"
     ctx.rule(rid, "the owned descriptor is closed only by Drop for WakeFd; the owner type is never cloned/forgotten/bitwise-read; "
                   "register_raw owns the descriptor before any exit and drops or moves the owner on every path", floor=4)
-    drop = F.one(name_re=r"^<signal_hook::low_level::pipe::WakeFd as core::ops::drop::Drop>::drop$", what="Drop for WakeFd")
+    W = owner_type(F)
+    drop = F.one(name_re=r"^<%s as core::ops::drop::Drop>::drop$" % re.escape(W), what="Drop for the descriptor owner")
     ctx.fn(drop)
     fdf, mef = wakefd_fields(F)
     n_close = 0
@@ -469,15 +500,15 @@ def rule_c(ctx):
     c = call_sites(F, drop, foreign("close"))
     okk, why = exactly_once(drop, [b for b, _, _ in c]) if c else (False, "no close")
     ctx.check(okk, rid, "close:once", "Drop for WakeFd closes exactly once on every path", drop.span, why)
-    esc = type_instances(F, WAKEFD, [r"^core::mem::forget::<", r"ManuallyDrop::<.*>::new$", r"^core::ptr::read(_volatile|_unaligned)?::<",
+    esc = type_instances(F, W, [r"^core::mem::forget::<", r"ManuallyDrop::<.*>::new$", r"^core::ptr::read(_volatile|_unaligned)?::<",
                                      r" as core::clone::Clone>::clone", r"^core::mem::transmute_copy"])
-    esc = [i for i in esc if re.search(r"(forget|new|read\w*|transmute_copy)::<[^>]*WakeFd|<signal_hook::low_level::pipe::WakeFd as core::clone::Clone>", i.name)
-           or i.name.startswith("core::mem::manually_drop::ManuallyDrop::<signal_hook::low_level::pipe::WakeFd")]
+    esc = [i for i in esc if re.search(r"(forget|new|read\w*|transmute_copy)::<[^>]*%s|<%s as core::clone::Clone>" % (re.escape(W.split("::")[-1]), re.escape(W)), i.name)
+           or i.name.startswith("core::mem::manually_drop::ManuallyDrop::<" + W)]
     ctx.check(not esc, rid, "owner:no-escape", "no forget/ManuallyDrop/ptr::read/Clone instance on WakeFd in the monomorphic program",
               None, [i.name for i in esc])
     rr0, rr = owner_builders(F)[0]
     ctx.fn(rr0)
-    aggs = [(bb, si, rv) for (bb, si, rv) in adt_constructions(rr, WAKEFD) if not rr.blocks[bb].get("dead")]
+    aggs = [(bb, si, rv) for (bb, si, rv) in adt_constructions(rr, owner_type(F)) if not rr.blocks[bb].get("dead")]
     ab = {bb for bb, _, _ in aggs}
     r = cfg.reachable(rr, 0, avoid=ab, unwind=False)
     ctx.check(not (r & set(rr.exits())) and aggs, rid, "register_raw:owns-before-exit",
@@ -485,7 +516,7 @@ def rule_c(ctx):
               "a return is reachable without constructing the owner (descriptor would leak on rejection)")
     # after construction: every path to return moves the owner into the action closure or drops it
     clos = {bb for bb, _, _ in closure_constructions(rr)}
-    drops = {bb for bb, t in rr.drops() if WAKEFD in t["ty"]}
+    drops = {bb for bb, t in rr.drops() if owner_type(F) in t["ty"]}
     for bb in ab:
         r = cfg.reachable_after(rr, bb, avoid=clos | drops, unwind=False) | ({bb} - clos)
         bad = (r & set(rr.exits()))
@@ -609,7 +640,7 @@ def rule_f(ctx):
     from .C03 import panic_sites, undischarged_sites
     rr0, rr = owner_builders(F)[0]
     ctx.fn(rr0)
-    aggs = {bb for bb, _, _ in adt_constructions(rr, WAKEFD) if not rr.blocks[bb].get("dead")}
+    aggs = {bb for bb, _, _ in adt_constructions(rr, owner_type(F)) if not rr.blocks[bb].get("dead")}
     if not aggs:
         raise AnchorLost("owner construction in register_raw")
     early = cfg.reachable(rr, 0, avoid=aggs, unwind=False)
